@@ -9,6 +9,7 @@ import (
 	"time"
 
 	"github.com/herohde/morlock/pkg/board"
+	"github.com/herohde/morlock/pkg/eval"
 	"github.com/herohde/morlock/pkg/search"
 	"verif/bridge"
 	"verif/harness"
@@ -22,6 +23,12 @@ func init() {
 		var cs c03case
 		_ = json.Unmarshal(data, &cs)
 		_, msg, _, _ := runPonder(context.Background(), cs, 200_000_000)
+		return msg != "", msg
+	}
+	Replayers["C03/table-history"] = func(data json.RawMessage) (bool, string) {
+		var cs c03tableCase
+		_ = json.Unmarshal(data, &cs)
+		msg := runTableHistory(context.Background(), cs)
 		return msg != "", msg
 	}
 	Replayers["C03/case"] = func(data json.RawMessage) (bool, string) {
@@ -181,6 +188,74 @@ func runPonder(ctx context.Context, cs c03case, budget int64) (cls, msg string, 
 	return "", "", checked, skipped
 }
 
+// tableHistory: a game with a history, searched with a transposition table that an earlier search
+// of an EARLIER position of the same game has filled (what an engine playing a game does). The table
+// is keyed by position only; a position that the history makes a draw (third occurrence) must count
+// as zero all the same - the draw is a property of the node, the entry a memory of another game
+// state. Bounded to roots where every earlier search is itself truthful (validated on the pinned
+// tree: no mismatch); the general case "table + draws inside the tree" is C11's carve-out.
+type c03tableCase struct {
+	Root   searchRoot
+	WarmAt int // the table is filled by a search of the position after this many moves of the history
+	D1, D2 int
+}
+
+func runTableHistory(ctx context.Context, cs c03tableCase) string {
+	tt := search.NewTranspositionTable(ctx, 1<<16)
+	s := search.AlphaBeta{Eval: search.Leaf{Eval: eval.Material{}}}
+	b, _ := newSearchBoards(searchRoot{FEN: cs.Root.FEN, Moves: cs.Root.Moves[:cs.WarmAt]}, 0)
+	if _, _, _, err := s.Search(ctx, &search.Context{TT: tt}, b, cs.D1); err != nil {
+		return "the warming search failed: " + err.Error()
+	}
+	for _, mv := range cs.Root.Moves[cs.WarmAt:] {
+		im, ok := bridge.FindImpl(b.Position(), b.Turn(), mv)
+		if !ok || !b.PushMove(im) {
+			return "harness: cannot play " + mv
+		}
+	}
+	_, score, pv, err := s.Search(ctx, &search.Context{TT: tt}, b, cs.D2)
+	if err != nil {
+		return "search returned an error: " + err.Error()
+	}
+	b2, g2 := newSearchBoards(cs.Root, 0)
+	v, merr := refsearch.New(refsearch.Config{Leaf: refsearch.Static, Eval: search.Leaf{Eval: eval.Material{}}}, b2, g2, 20_000_000).Value(ctx, cs.D2)
+	if merr != nil {
+		return ""
+	}
+	if rs, ok := bridge.RefScore(score); !ok || !rs.Eq(v) {
+		return fmt.Sprintf("after a depth-%d search of the position %d moves into the game had filled the table, the depth-%d search at the end of the game returned %v (pv %s); exhaustive minimax over the game with its history gives %v", cs.D1, cs.WarmAt, cs.D2, score, bridge.MovesText(pv), bridge.ImplScore(v))
+	}
+	return ""
+}
+
+func tableHistoryFamily(c *harness.Check) {
+	roots := []searchRoot{
+		{FEN: "7k/8/8/3n4/8/8/8/3R3K w - - 0 1", Moves: []string{"h1g1", "h8g8", "g1h1", "g8h8", "h1g1", "h8g8", "g1h1"}},
+		{FEN: "7k/8/8/8/8/8/8/R6K w - - 0 1", Moves: []string{"a1a2", "h8g8", "a2a1", "g8h8", "a1a2", "h8g8", "a2a1"}},
+		{FEN: "7k/8/8/8/8/8/8/R6K w - - 0 1", Moves: []string{"a1a2", "h8g8", "a2a1", "g8h8", "a1a2", "h8g8"}},
+		{FEN: "k7/p7/P7/8/8/7p/7P/7K w - - 0 1", Moves: []string{"h1g1", "a8b8", "g1h1", "b8a8", "h1g1", "a8b8", "g1h1"}},
+	}
+	var cases []c03tableCase
+	for _, r := range roots {
+		for d1 := 1; d1 <= 3; d1++ {
+			for at := 0; at <= len(r.Moves); at++ {
+				for d2 := 1; d2 <= c.Pick(3, 4); d2++ {
+					cases = append(cases, c03tableCase{r, at, d1, d2})
+				}
+			}
+		}
+	}
+	var cc classCap
+	harness.Parallel(len(cases), func(i int) {
+		c.Evaluations.Add(1)
+		c.Traces.Add(1)
+		if msg := runTableHistory(context.Background(), cases[i]); msg != "" {
+			c.Violation(cc.sig("C03/table-history", fmt.Sprintf("%+v", cases[i])), msg+fmt.Sprintf("\n    case: %+v", cases[i]), "C03/table-history", cases[i])
+		}
+	})
+	c.SetExtra("table_history_cases", len(cases))
+}
+
 func depthsFor(c *harness.Check, r searchRoot, cfg string) []int {
 	if strings.Contains(r.Tags, "rich") {
 		if cfg == "full/captures-quiescence" || cfg == "turochamp" {
@@ -213,7 +288,7 @@ func depthsFor(c *harness.Check, r searchRoot, cfg string) []int {
 
 func checkC03(c *harness.Check) {
 	mustAnchors(c)
-	c.Rule = "search corpus (mate/stalemate nets, small endgames, tactical fragments, roots whose history makes a repetition / the fifty-move rule / insufficient material occur inside the tree - with equal and with unequal material, and again on boards whose Zobrist table maps every position to 0 -, five capture-rich middlegames at depth <= 2-3) x depth 0..D x 7 configurations (full+static, full+captures-only quiescence, TUROCHAMP quiescence, SARGON one-ply-if-checked without under-promotions, BERNSTEIN plausible moves at limits 7/3/1); each case: full-window AlphaBeta.Search vs unpruned reference negamax/quiescence under the reference score order, PV legal + within depth + first move attains the value + non-empty when it must be, board snapshot unchanged; and searches LIMITED TO A VARIATION (Context.Ponder = each legal first move of the net and tactical roots): value = minus the reference value of that move's child, variation starts with the move. distinct_nontrivial = distinct (root, config, depth, value) with depth >= 1"
+	c.Rule = "search corpus (mate/stalemate nets, small endgames, tactical fragments, roots whose history makes a repetition / the fifty-move rule / insufficient material occur inside the tree - with equal and with unequal material, and again on boards whose Zobrist table maps every position to 0 -, five capture-rich middlegames at depth <= 2-3) x depth 0..D x 7 configurations (full+static, full+captures-only quiescence, TUROCHAMP quiescence, SARGON one-ply-if-checked without under-promotions, BERNSTEIN plausible moves at limits 7/3/1); each case: full-window AlphaBeta.Search vs unpruned reference negamax/quiescence under the reference score order, PV legal + within depth + first move attains the value + non-empty when it must be, board snapshot unchanged; and searches LIMITED TO A VARIATION (Context.Ponder = each legal first move of the net and tactical roots): value = minus the reference value of that move's child, variation starts with the move. Games with a history searched with a table that an earlier search of an earlier position of the same game has filled (4 games x every point of the history x depths): a position drawn by the history counts as zero even when the table holds an entry for it. distinct_nontrivial = distinct (root, config, depth, value) with depth >= 1"
 	var cases []c03case
 	for _, r := range append(append([]searchRoot(nil), searchRoots...), richRoots...) {
 		for _, cfg := range searchCfgs {
@@ -288,6 +363,7 @@ func checkC03(c *harness.Check) {
 	c.Transitions.Store(int64(len(cases) + len(pcases)))
 	c.Sample(map[string]any{"root": "k7/8/2K5/8/8/8/8/7R b - - 0 1", "config": "full/material", "depth": 5, "oracle": "unpruned negamax: mated in 4"})
 	c.Sample(cases[len(cases)/2])
+	tableHistoryFamily(c)
 	c.Finish()
 }
 
